@@ -45,33 +45,101 @@ MODE_SPEC = {'TASK_EXECUTABLE': ('executable',),
 # ------------------------------------------------------------------------------
 # helpers: reads of `self` entries
 #
-def self_key(expr, base='self'):
-    """entry name if expr is base.<a> / base['a'] / base.get('a'[, d])"""
+def _const_str(e, consts):
+    if isinstance(e, ast.Constant) and isinstance(e.value, str):
+        return e.value
+    if consts and isinstance(e, ast.Name) and \
+            isinstance(consts.get(e.id), str):
+        return consts[e.id]
+    return None
+
+
+def self_key(expr, base='self', consts=None):
+    """entry name if expr is base.<a> / base['a'] / base.get('a'[, d]); a key
+    given by a name is looked up in `consts` (rows of a constant table)"""
     if isinstance(expr, ast.Attribute) and isinstance(expr.value, ast.Name) \
             and expr.value.id == base:
         return expr.attr
     if isinstance(expr, ast.Subscript) and isinstance(expr.value, ast.Name) \
-            and expr.value.id == base and isinstance(expr.slice, ast.Constant) \
-            and isinstance(expr.slice.value, str):
-        return expr.slice.value
+            and expr.value.id == base:
+        return _const_str(expr.slice, consts)
     if isinstance(expr, ast.Call) and isinstance(expr.func, ast.Attribute) \
             and expr.func.attr == 'get' and \
             isinstance(expr.func.value, ast.Name) and \
-            expr.func.value.id == base and expr.args and \
-            isinstance(expr.args[0], ast.Constant) and \
-            isinstance(expr.args[0].value, str):
-        return expr.args[0].value
+            expr.func.value.id == base and expr.args:
+        return _const_str(expr.args[0], consts)
     return None
 
 
-def self_reads(expr, base='self'):
+def self_reads(expr, base='self', consts=None):
     out = set()
     for n in walk(expr):
-        k = self_key(n, base)
-        if k is not None and not (isinstance(n, ast.Attribute) and
-                                  isinstance(n.ctx, ast.Store)):
+        k = self_key(n, base, consts)
+        if k is not None and not (isinstance(n, (ast.Attribute, ast.Subscript))
+                                  and isinstance(n.ctx, ast.Store)):
             out.add(k)
     return out
+
+
+def fold_name(prog, module, e, cls=None):
+    """prog.fold, plus module constants which are assigned several times with
+    the same value (EXECUTABLE, ARGS, ... in task_description.py)"""
+    v = prog.fold(module, e, cls)
+    if v is UNKNOWN and isinstance(e, ast.Name):
+        vals = [prog.fold(module, x) for x in module.assigns.get(e.id, [])]
+        if vals and all(x is not UNKNOWN and x == vals[0] for x in vals):
+            v = vals[0]
+    return v
+
+
+def const_expr(prog, f, e):
+    """the expression a constant table is defined by: self.X / cls.X (class
+    attribute along the MRO) or a module level name"""
+    if isinstance(e, ast.Attribute) and isinstance(e.value, ast.Name) and \
+            e.value.id in ('self', 'cls') and f.cls is not None:
+        for k in prog.mro(f.cls):
+            if e.attr in k.consts:
+                return k.consts[e.attr], k.module, k
+    if isinstance(e, ast.Name):
+        r = prog.lookup(f.module, e.id)
+        if r and r[0] == 'const' and len(r[2]) == 1:
+            return r[2][0], r[1], None
+    return None
+
+
+def fold_table(prog, f, e):
+    """dict / list-of-rows value of a constant table; elements which cannot be
+    folded (type names, functions) stay ast nodes.  None if e is no table"""
+    ce = const_expr(prog, f, e)
+    if ce is None:
+        return None
+    node, module, cls = ce
+
+    def el(x):
+        v = fold_name(prog, module, x, cls)
+        return x if v is UNKNOWN else v
+    if isinstance(node, ast.Dict):
+        out = {}
+        for k, v in zip(node.keys, node.values):
+            if k is None:
+                return None
+            kk = el(k)
+            if isinstance(kk, ast.AST):
+                return None
+            try:
+                out[kk] = el(v)
+            except TypeError:
+                return None
+        return out
+    if isinstance(node, (ast.Tuple, ast.List)):
+        rows = []
+        for r in node.elts:
+            if isinstance(r, (ast.Tuple, ast.List)):
+                rows.append(tuple(el(x) for x in r.elts))
+            else:
+                rows.append(el(r))
+        return rows
+    return None
 
 
 def dict_keys(prog, module, cls, node):
@@ -82,13 +150,7 @@ def dict_keys(prog, module, cls, node):
     for k in node.keys:
         if k is None:
             return None
-        v = prog.fold(module, k, cls)
-        if v is UNKNOWN and isinstance(k, ast.Name):
-            # a module constant which is assigned several times with the same
-            # value (EXECUTABLE, ARGS, ... in task_description.py)
-            vals = [prog.fold(module, e) for e in module.assigns.get(k.id, [])]
-            if vals and all(x is not UNKNOWN and x == vals[0] for x in vals):
-                v = vals[0]
+        v = fold_name(prog, module, k, cls)
         if v is UNKNOWN:
             return None
         out.append(v)
@@ -126,11 +188,81 @@ ALIAS_SPEC = {'cpu_processes'  : 'ranks',
               'worker_class'   : 'raptor_class'}
 
 
-def alias_blocks(f):
-    """[(old attribute, ast.If)]: `if self.<old>:` blocks of _verify without
-    else whose body stores into self"""
+class Block:
+    """one alias unit: the statements which run when the deprecated entry is
+    set.  `node` is the statement it comes from, `consts` the constants bound
+    to names (a row of a table driven loop)"""
+
+    def __init__(self, node, body, consts=None):
+        self.node, self.body, self.consts = node, body, consts or {}
+
+
+def _writes_self(stmts, consts):
+    for b in stmts:
+        if isinstance(b, (ast.Assign, ast.AugAssign)):
+            tg = b.targets if isinstance(b, ast.Assign) else [b.target]
+            if any(self_key(t, consts=consts) is not None for t in tg):
+                return True
+    return False
+
+
+def _table_units(prog, f, loop):
+    """units of `for <names> in <constant table>: <alias block over the
+    row>`; None if the loop is not of that shape"""
+    rows = fold_table(prog, f, loop.iter)
+    if not isinstance(rows, list) or not rows or loop.orelse:
+        return None
+    names = [e.id for e in loop.target.elts if isinstance(e, ast.Name)] \
+        if isinstance(loop.target, (ast.Tuple, ast.List)) else (
+            [loop.target.id] if isinstance(loop.target, ast.Name) else [])
+    if not names:
+        return None
+    out = []
+    for row in rows:
+        row = row if isinstance(row, tuple) else (row,)
+        if len(row) != len(names):
+            return None
+        consts = dict(zip(names, row))
+        prefix, rest, guard = [], None, None
+        for i, b in enumerate(loop.body):
+            if isinstance(b, ast.Assign):
+                prefix.append(b)
+                continue
+            if isinstance(b, ast.If) and not b.orelse:
+                t = b.test
+                if isinstance(t, ast.UnaryOp) and isinstance(t.op, ast.Not) \
+                        and len(b.body) == 1 and \
+                        isinstance(b.body[0], ast.Continue):
+                    guard, rest = t.operand, loop.body[i + 1:]
+                elif i == len(loop.body) - 1:
+                    guard, rest = t, b.body
+            break
+        if guard is None:
+            return None
+        old = self_key(guard, consts=consts)
+        if old is None and isinstance(guard, ast.Name):
+            for a in prefix:
+                if any(isinstance(t, ast.Name) and t.id == guard.id
+                       for t in a.targets):
+                    old = self_key(a.value, consts=consts)
+        if old is None:
+            return None
+        out.append((old, Block(loop, prefix + list(rest), consts)))
+    return out
+
+
+def alias_blocks(f, prog=None):
+    """[(old attribute, Block)]: `if self.<old>:` blocks of _verify without
+    else whose body stores into self, and the rows of table driven loops of
+    the same meaning"""
     out, ignored = [], []
     for s in f.node.body:
+        if isinstance(s, ast.For) and prog is not None:
+            units = _table_units(prog, f, s)
+            if units and all(_writes_self(b.body, b.consts)
+                             for o, b in units):
+                out += units
+            continue
         if not isinstance(s, ast.If) or s.orelse:
             continue
         old = self_key(s.test)
@@ -139,14 +271,8 @@ def alias_blocks(f):
         if all(isinstance(b, ast.Pass) for b in s.body):
             ignored.append(old)
             continue
-        writes = False
-        for b in s.body:
-            if isinstance(b, (ast.Assign, ast.AugAssign)):
-                tg = b.targets if isinstance(b, ast.Assign) else [b.target]
-                if any(self_key(t) is not None for t in tg):
-                    writes = True
-        if writes:
-            out.append((old, s))
+        if _writes_self(s.body, None):
+            out.append((old, Block(s, s.body)))
     return out, ignored
 
 
@@ -156,13 +282,17 @@ def run_block(prog, f, old, block):
     'other'.  Returns (env, events)"""
     env = {'self.' + old: 'old'}
     events = []          # (stmt, target, previous class, new class)
+    consts = block.consts
 
     def val(expr):
-        reads = ['self.' + k for k in self_reads(expr)] + \
+        reads = ['self.' + k for k in self_reads(expr, consts=consts)] + \
                 [n.id for n in walk(expr) if isinstance(n, ast.Name)
                  and isinstance(n.ctx, ast.Load)]
         if any(env.get(r) in ('old', 'der') for r in reads):
             return 'der'
+        if isinstance(expr, ast.Name) and expr.id in consts and \
+                not isinstance(consts[expr.id], ast.AST):
+            return ('const', consts[expr.id])
         v = prog.fold(f.module, expr, f.cls)
         if v is not UNKNOWN:
             return ('const', v)
@@ -194,7 +324,7 @@ def run_block(prog, f, old, block):
                 'UNRECOGNISED-IDIOM %s: alias block `if self.%s:` contains '
                 'control flow (%s)' % (f.where, old, type(b).__name__))
         for t in targets:
-            k = self_key(t)
+            k = self_key(t, consts=consts)
             if k is not None:
                 loc = 'self.' + k
             elif isinstance(t, ast.Name):
@@ -215,7 +345,7 @@ def r19_1(prog, rep, rid='R19.1'):
              'or untouched (verify is idempotent)', minimum=30)
     f = prog.method(TD[0], TD[1], '_verify')
     rep.saw(f)
-    blocks, ignored = alias_blocks(f)
+    blocks, ignored = alias_blocks(f, prog)
     if len(blocks) < 10:
         raise AnalysisError('%s: only %d alias blocks recognised in %s '
                             '(expected >= 10)' % (rid, len(blocks), f.where))
@@ -230,7 +360,7 @@ def r19_1(prog, rep, rid='R19.1'):
         # (A) the value survives in a replacement
         if carriers:
             rep.ok(rid, f, 'value of %r ends up in %s' % (old, carriers),
-                   f.loc(block))
+                   f.loc(block.node))
         else:
             killer = [e for e in events if e[2] in ('old', 'der')
                       and e[3] not in ('old', 'der') and e[1] != 'self.' + old]
@@ -253,7 +383,7 @@ def r19_1(prog, rep, rid='R19.1'):
             else:
                 why = 'no statement copies it into another attribute'
                 cons = '%s: not copied' % old
-                at = block
+                at = block.node
             rep.bad(rid, f, cons,
                     'alias block `if self.%s:` loses the value: %s; after '
                     'verify() no attribute holds what the application put '
@@ -280,7 +410,7 @@ def r19_1(prog, rep, rid='R19.1'):
                   'attribute with a new truthy value (%s): a second verify() '
                   'maps that value onto the replacement' % (
                       old, short(st[-1], 50) if st else ''),
-                  loc=f.loc(st[-1] if st else block),
+                  loc=f.loc(st[-1] if st else block.node),
                   history='verify() twice: the replacement changes on the '
                   'second call')
         # (C) the replacement is the documented one
@@ -288,7 +418,7 @@ def r19_1(prog, rep, rid='R19.1'):
         if want is None or not carriers:
             rep.ok(rid, f, 'no documented replacement to compare for %r'
                    % old if want is None else 'replacement of %r: see above'
-                   % old, f.loc(block))
+                   % old, f.loc(block.node))
         else:
             rep.check(carriers == [want], rid, f,
                       'the value of %r goes to its documented replacement %r'
@@ -296,7 +426,7 @@ def r19_1(prog, rep, rid='R19.1'):
                       message='alias block `if self.%s:` puts the value into '
                       '%s, documented replacement is %r' % (old, carriers,
                                                             want),
-                      loc=f.loc(block),
+                      loc=f.loc(block.node),
                       history="TaskDescription({'executable': 'x', %r: V})"
                       ".verify(): %s is V, %s is not" % (
                           old, '/'.join(carriers), want))
@@ -319,12 +449,12 @@ def r19_6(prog, rep, rid='R19.6'):
     f = prog.method(TD[0], TD[1], '_verify')
     g = cfg_of(f)
     smap = I.stmt_node_map(g)
-    blocks, ignored = alias_blocks(f)
+    blocks, ignored = alias_blocks(f, prog)
     writers = {}            # replacement attr -> [(old, store stmt)]
     inside = set()
     for old, block in blocks:
         env, events = run_block(prog, f, old, block)
-        for b in walk(block):
+        for b in walk(block.node):
             inside.add(id(b))
         for st, loc, was, now in events:
             # every attribute the block stores into besides the deprecated
@@ -390,14 +520,95 @@ class VerifyModel:
         self.f    = f
         self.g    = cfg_of(f)
         self.attrs = set()
+        # local names for the mode, and names which hold the entry of a
+        # constant table for the mode:  needed = _TABLE.get(self.mode)
+        self.alias   = set()
+        self.lookups = {}
+        assigns = [n for n in walk(f.node) if isinstance(n, ast.Assign) and
+                   len(n.targets) == 1 and
+                   isinstance(n.targets[0], ast.Name)]
+        for n in assigns:
+            if self_key(n.value) in self.MODE:
+                self.alias.add(n.targets[0].id)
+        for n in assigns:
+            v, key, tab = n.value, None, None
+            if isinstance(v, ast.Call) and isinstance(v.func, ast.Attribute) \
+                    and v.func.attr == 'get' and len(v.args) == 1:
+                key, tab = v.args[0], v.func.value
+            elif isinstance(v, ast.Subscript):
+                key, tab = v.slice, v.value
+            if key is None or not self._is_mode(key):
+                continue
+            table = fold_table(prog, f, tab)
+            if isinstance(table, dict):
+                self.lookups[n.targets[0].id] = table
+                self.attrs |= {x for x in table.values()
+                               if isinstance(x, str)}
         for n in self.g.nodes:
             if n.kind == 'test':
                 k = self_key(n.ast)
                 if k is not None:
                     self.attrs.add(k)
+        # entries read through a name which holds a constant key
+        keyed = set()
+        for n in walk(f.node):
+            arg = None
+            if isinstance(n, ast.Call) and isinstance(n.func, ast.Attribute) \
+                    and n.func.attr == 'get' and \
+                    dotted(n.func.value) == 'self' and n.args:
+                arg = n.args[0]
+            elif isinstance(n, ast.Subscript) and dotted(n.value) == 'self':
+                arg = n.slice
+            if isinstance(arg, ast.Name):
+                keyed.add(arg.id)
+        for n in assigns:
+            if n.targets[0].id in keyed:
+                v = fold_name(prog, f.module, n.value, f.cls)
+                if isinstance(v, str):
+                    self.attrs.add(v)
 
-    def _atom(self, atom, mode, falsy, truthy, rest):
+    def _is_mode(self, e):
+        return self_key(e) in self.MODE or (isinstance(e, ast.Name) and
+                                            e.id in self.alias)
+
+    def _key(self, atom, mode, env=()):
+        """(entry name read by the atom | None, known?)"""
         k = self_key(atom)
+        if k is not None:
+            return k, True
+        # self.get(<name holding a table entry>)
+        arg = None
+        if isinstance(atom, ast.Call) and \
+                isinstance(atom.func, ast.Attribute) and \
+                atom.func.attr == 'get' and dotted(atom.func.value) == 'self' \
+                and atom.args:
+            arg = atom.args[0]
+        elif isinstance(atom, ast.Subscript) and \
+                dotted(atom.value) == 'self':
+            arg = atom.slice
+        if isinstance(arg, ast.Name) and arg.id in dict(env):
+            v = dict(env)[arg.id]
+            return (v, True) if isinstance(v, str) else (None, False)
+        if isinstance(arg, ast.Name) and arg.id in self.lookups:
+            if mode is UNKNOWN:
+                return None, False
+            v = self.lookups[arg.id].get(mode)
+            return (v, True) if isinstance(v, str) else (None, False)
+        return None, True
+
+    def _atom(self, atom, mode, falsy, truthy, rest, env=()):
+        if isinstance(atom, ast.Name) and atom.id in dict(env):
+            return bool(dict(env)[atom.id])
+        if isinstance(atom, ast.Name) and atom.id in self.lookups:
+            if mode is UNKNOWN:
+                return None
+            v = self.lookups[atom.id].get(mode)
+            return None if isinstance(v, ast.AST) else bool(v)
+        if isinstance(atom, ast.Name) and atom.id in self.alias:
+            return None if mode is UNKNOWN else bool(mode)
+        k, known = self._key(atom, mode, env)
+        if not known:
+            return None
         if k is not None:
             if k in self.MODE:
                 return None if mode is UNKNOWN else bool(mode)
@@ -412,12 +623,14 @@ class VerifyModel:
                 operand = ast.parse(cc[0], mode='eval').body
             except SyntaxError:
                 return None
-            if self_key(operand) in self.MODE:
+            if self._is_mode(operand):
                 if mode is UNKNOWN:
                     return None
                 return (mode in cc[2]) == (cc[1] == 'in')
             return None
-        if self_reads(atom) & set(self.MODE):
+        if self_reads(atom) & set(self.MODE) or any(
+                isinstance(n, ast.Name) and n.id in self.alias
+                for n in walk(atom)):
             raise AnalysisError('UNRECOGNISED-IDIOM %s: test `%s` reads the '
                                 'mode but is not a comparison with constants'
                                 % (self.f.where, short(atom, 60)))
@@ -428,20 +641,33 @@ class VerifyModel:
         g, f = self.g, self.f
 
         def transfer(node, edge, st):
-            # the state is (mode,): None is Exploration's "infeasible"
+            # the state is (mode, constants bound to local names); None is
+            # Exploration's "infeasible"
             if node.kind == 'test' and edge.label in ('T', 'F'):
-                v = self._atom(node.ast, st[0], set(falsy), set(truthy), rest)
+                v = self._atom(node.ast, st[0], set(falsy), set(truthy), rest,
+                               st[1])
                 if v is not None and v != (edge.label == 'T'):
                     return None
             if node.kind == 'stmt' and isinstance(node.ast, ast.Assign) and \
                     edge.label != 'exc':
                 for t in node.ast.targets:
                     if self_key(t) in self.MODE:
-                        return (self.prog.fold(f.module, node.ast.value,
-                                               f.cls),)
+                        return (fold_name(self.prog, f.module, node.ast.value,
+                                          f.cls), st[1])
+                    if isinstance(t, ast.Name) and t.id not in self.lookups:
+                        env = dict(st[1])
+                        v = fold_name(self.prog, f.module, node.ast.value,
+                                      f.cls)
+                        if v is UNKNOWN or not isinstance(
+                                v, (str, int, float, bool, type(None))):
+                            env.pop(t.id, None)
+                        else:
+                            env[t.id] = v
+                        return (st[0], tuple(sorted(env.items(),
+                                                    key=lambda x: x[0])))
             return st
 
-        ex = Exploration(g, g.entry.id, (mode,), transfer)
+        ex = Exploration(g, g.entry.id, (mode, ()), transfer)
         out = set()
         for t in ex.terminals:
             out.add('exit' if t.node == g.exit.id else 'raise')
@@ -858,29 +1084,82 @@ def inverse(enc, dec):
     return True
 
 
+def _direct_encoder(f):
+    """(dict literal, return stmt) if f returns <codec>(<dict literal>)"""
+    lits = {}
+    for n in walk(f.node):
+        if isinstance(n, ast.Assign) and isinstance(n.value, ast.Dict) and \
+                len(n.targets) == 1 and isinstance(n.targets[0], ast.Name):
+            lits[n.targets[0].id] = n.value
+    for n in walk(f.node):
+        if isinstance(n, ast.Return) and isinstance(n.value, ast.Call) \
+                and n.value.args:
+            a = n.value.args[0]
+            d = a if isinstance(a, ast.Dict) else (
+                lits.get(a.id) if isinstance(a, ast.Name) else None)
+            if d is not None:
+                return d, n
+    return None
+
+
+class _Sub(ast.NodeTransformer):
+    def __init__(self, mapping):
+        self.mapping = mapping
+
+    def visit_Name(self, node):
+        if node.id in self.mapping and isinstance(node.ctx, ast.Load):
+            import copy
+            return copy.deepcopy(self.mapping[node.id])
+        return node
+
+
 def _encoders(prog):
-    """[(FuncInfo, dict literal, return call)] of pytask.py: functions which
-    return <codec>(<dict literal>)"""
+    """encoders of pytask.py: methods of PythonTask (and functions nested in
+    them) which return <codec>(<dict literal>), directly or through a module
+    level helper which does.  Records: dict(f=wrapper, anchor=node in f,
+    values=[value expressions in the scope of f], of/olit/oret=function,
+    literal and return statement which apply the outer codec)"""
     c = prog.cls(*PYT)
     out = []
     todo = list(c.methods.values())
     while todo:
         f = todo.pop()
         todo += list(f.nested.values())
-        lits = {}
+        d = _direct_encoder(f)
+        if d is not None:
+            out.append(dict(f=f, anchor=d[0], values=list(d[0].values),
+                            of=f, olit=d[0], oret=d[1]))
+            continue
         for n in walk(f.node):
-            if isinstance(n, ast.Assign) and isinstance(n.value, ast.Dict) and \
-                    len(n.targets) == 1 and isinstance(n.targets[0], ast.Name):
-                lits[n.targets[0].id] = n.value
-        for n in walk(f.node):
-            if isinstance(n, ast.Return) and isinstance(n.value, ast.Call) \
-                    and n.value.args:
-                a = n.value.args[0]
-                d = a if isinstance(a, ast.Dict) else (
-                    lits.get(a.id) if isinstance(a, ast.Name) else None)
-                if d is not None:
-                    out.append((f, d, n))
-    return sorted(out, key=lambda x: x[0].where)
+            if not (isinstance(n, ast.Return) and
+                    isinstance(n.value, ast.Call)):
+                continue
+            h = prog.resolve_call(f, n.value)
+            if h is None or h.cls is not None or h.module is not f.module:
+                continue
+            hd = _direct_encoder(h)
+            if hd is None:
+                continue
+            call, params = n.value, h.params
+            if any(isinstance(a, ast.Starred) for a in call.args) or \
+                    any(k.arg is None for k in call.keywords) or \
+                    len(call.args) > len(params):
+                raise AnalysisError('UNRECOGNISED-IDIOM %s: `%s`'
+                                    % (f.where, short(call, 60)))
+            mapping = dict(zip(params, call.args))
+            for k in call.keywords:
+                mapping[k.arg] = k.value
+            if set(mapping) != set(params):
+                raise AnalysisError('UNRECOGNISED-IDIOM %s: `%s` does not '
+                                    'bind every parameter of %s'
+                                    % (f.where, short(call, 60), h.qual))
+            import copy
+            vals = [ast.fix_missing_locations(ast.copy_location(
+                _Sub(mapping).visit(copy.deepcopy(v)), call))
+                for v in hd[0].values]
+            out.append(dict(f=f, anchor=call, values=vals, of=h,
+                            olit=hd[0], oret=hd[1]))
+    return sorted(out, key=lambda x: x['f'].where)
 
 
 def _param_default(f, name):
@@ -1015,17 +1294,27 @@ def r19_4(prog, rep, rid='R19.4'):
             want = prog.fold(dec.module, n.generators[0].iter)
             if want is not UNKNOWN:
                 demanded |= set(want)
+    for n in walk(dec.node):
+        if isinstance(n, ast.For) and isinstance(n.target, ast.Name):
+            want = fold_name(prog, dec.module, n.iter)
+            if isinstance(want, (list, tuple)) and any(
+                    isinstance(c, ast.Compare) and len(c.ops) == 1 and
+                    isinstance(c.ops[0], (ast.In, ast.NotIn)) and
+                    isinstance(c.left, ast.Name) and
+                    c.left.id == n.target.id and
+                    isinstance(c.comparators[0], ast.Name) and
+                    c.comparators[0].id == obj for c in walk(n)):
+                demanded |= set(want)
     encs = _encoders(prog)
     if len(encs) < 2:
         raise AnalysisError('%s: only %d PythonTask encoder(s) found'
                             % (rid, len(encs)))
     consumer = _consumer_unpacks(prog, dec, d_keys)
-    for f, lit, ret in encs:
+    for enc in encs:
+        f, lit = enc['f'], enc['anchor']
+        of, olit, ret = enc['of'], enc['olit'], enc['oret']
         rep.saw(f)
-        keys = dict_keys(prog, f.module, f.cls, lit)
-        if keys is None:
-            raise AnalysisError('UNRECOGNISED-IDIOM %s: computed key in the '
-                                'encoded dict' % f.where)
+        keys = dict_keys(prog, of.module, of.cls, olit)
         need = set(d_keys) | demanded
         rep.check(need <= set(keys), rid, f,
                   '%s encodes every key the decoder reads or demands %s'
@@ -1037,7 +1326,7 @@ def r19_4(prog, rep, rid='R19.4'):
                   history='every task encoded by %s fails to decode '
                   '(KeyError / TypeError in get_func_attr)' % f.qual)
         try:
-            e_outer = P.pipe(f, ret.value, lambda e: e is lit or (
+            e_outer = P.pipe(of, ret.value, lambda e: e is olit or (
                 isinstance(e, ast.Name) and isinstance(ret.value.args[0],
                                                        ast.Name)
                 and e.id == ret.value.args[0].id))
@@ -1047,11 +1336,11 @@ def r19_4(prog, rep, rid='R19.4'):
                   '%s: outer codec %s is undone by the decoder %s'
                   % (f.qual, e_outer, d_outer), construct='outer codec',
                   message='%s encodes the task with %s, get_func_attr decodes '
-                  'with %s' % (f.qual, e_outer, d_outer), loc=f.loc(ret),
+                  'with %s' % (f.qual, e_outer, d_outer), loc=of.loc(ret),
                   history='get_func_attr(%s(...)) raises' % f.qual)
         params = set(f.params) | set(
             f.parent.params if f.parent is not None else [])
-        values = dict(zip(keys, lit.values))
+        values = dict(zip(keys, enc['values']))
         for k in sorted(set(keys) | set(d_keys)):
             if k not in d_keys or k not in values:
                 # reported by the key-set obligation above
@@ -1290,11 +1579,13 @@ def converter_facts(prog, f):
         raise AnalysisError('UNRECOGNISED-IDIOM %s: converted slot is `%s`'
                             % (f.where, short(v, 40)))
     sink_node = smap[id(sink)]
-    # discriminator: keys of the input slot tested directly in the loop
+    # discriminator: keys of the input slot read by the tests which decide
+    # whether the slot is converted at all (control dependence of the sink)
+    from ..flow import guard_atoms
     disc = set()
-    for n in g.nodes:
-        if n.kind == 'test' and n.id in g.loop_body[loop.id]:
-            disc |= _slot_reads(n.ast, slot)
+    for atom, pol in guard_atoms(g, sink_node.id,
+                                 within=g.loop_body[loop.id]):
+        disc |= _slot_reads(atom, slot)
     # path-sensitive provenance up to the sink
     start, stop, stop_edge = loop_slice(g, loop.id)
 
@@ -1346,7 +1637,7 @@ def r19_5(prog, rep, rid='R19.5'):
     rep.rule(rid, 'both slot converters carry every key of Slot._schema '
              '(except the version discriminator) from the same key of the '
              'input slot; every RO built carries index and occupation',
-             minimum=18)
+             minimum=13)
     slot_cls = prog.cls(RC, 'Slot')
     ro_cls   = prog.cls(RC, 'RO')
     schema   = class_table_keys(prog, slot_cls, '_schema')
@@ -1385,20 +1676,39 @@ def r19_5(prog, rep, rid='R19.5'):
                       'converted slot has the wrong %s' % (
                           k, '/'.join(sorted(foreign[0])) if foreign
                           else 'default', k))
-        limp = f.module.local_imports(f.node)
+        # RO(...) calls of the converter and of the module helpers it calls
+        funcs, ros = [f], []
         for c in calls_in(f.node):
-            r = prog.resolve(f.module, c.func, limp)
-            if r and r[0] == 'class' and r[1] is ro_cls:
-                have = {k.arg for k in c.keywords}
-                okr = bool(c.args) or set(ro_keys) <= have
-                rep.check(okr, rid, f, '%s sets %s' % (short(c, 50), ro_keys),
-                          construct=c,
-                          message='%s builds `%s` without %s: the index or '
-                          'the occupation of the resource is lost' % (
-                              fname, short(c, 50),
-                              sorted(set(ro_keys) - have)), loc=f.loc(c),
-                          history='an old-format slot: the new slot names '
-                          'core 0 / has no occupation')
+            callee = prog.resolve_call(f, c)
+            if callee is not None and callee.cls is None and \
+                    callee.module is f.module and callee not in funcs:
+                funcs.append(callee)
+        for fn in funcs:
+            limp = fn.module.local_imports(fn.node)
+            for c in calls_in(fn.node):
+                r = prog.resolve(fn.module, c.func, limp)
+                if r and r[0] == 'class' and r[1] is ro_cls:
+                    ros.append((fn, c))
+        if fname == 'convert_slots_to_new':
+            if not ros:
+                raise AnalysisError('UNRECOGNISED-IDIOM %s builds no RO'
+                                    % f.where)
+            bad = [(fn, c) for fn, c in ros if not c.args and
+                   not set(ro_keys) <= {k.arg for k in c.keywords}]
+            rep.check(not bad, rid, f,
+                      'all %d RO(...) built by %s set %s' % (len(ros), fname,
+                                                             ro_keys),
+                      construct=bad[0][1] if bad else 'RO',
+                      message='%s builds `%s` without %s: the index or the '
+                      'occupation of the resource is lost' % (
+                          bad[0][0].qual if bad else '',
+                          short(bad[0][1], 50) if bad else '',
+                          sorted(set(ro_keys) - {k.arg for k in
+                                                 bad[0][1].keywords})
+                          if bad else ''),
+                      loc=bad[0][0].loc(bad[0][1]) if bad else f.loc(),
+                      history='an old-format slot: the new slot names core 0 '
+                      '/ has no occupation')
 
 
 # ------------------------------------------------------------------------------
@@ -1632,4 +1942,82 @@ SILENT = [
     dict(name='dict-form cores converted by a comprehension', edits=[
         (_M, "                cores = list()\n                for ro in slot['cores']:\n                    i = ro['index']\n                    o = ro['occupation']\n                    cores.append(RO(index=i, occupation=o))\n",
              "                cores = [RO(index=ro['index'], occupation=ro['occupation'])\n                         for ro in cores]\n")]),
+]
+
+
+# ------------------------------------------------------------------------------
+# behaviour-preserving refactorings of the robustness corpus (seeded/<id>-r<n>),
+# as text edits: silent as they are, killed with a defect on top
+#
+_CORPUS = {
+    'C19-r1': [
+        ('task_description.py',
+         "SERVICES         = 'services'\nMETADATA         = 'metadata'\n\n\n# ------------------------------------------------------------------------------\n#\n",
+         "SERVICES         = 'services'\nMETADATA         = 'metadata'\n\n# attribute which needs to be set for the respective task mode\n_MODE_REQUIRES   = {TASK_EXECUTABLE: EXECUTABLE,\n                    TASK_SERVICE   : EXECUTABLE,\n                    AGENT_SERVICE  : EXECUTABLE,\n                    TASK_PROC      : EXECUTABLE,\n                    TASK_FUNC      : FUNCTION,\n                    TASK_METH      : FUNCTION,\n                    TASK_EVAL      : CODE,\n                    TASK_EXEC      : CODE,\n                    TASK_SHELL     : COMMAND}\n\n\n# ------------------------------------------------------------------------------\n#\n"),
+        ('task_description.py',
+         '        super().__init__(from_dict=from_dict)\n\n\n    # --------------------------------------------------------------------------\n    #\n    def _verify(self):\n',
+         '        super().__init__(from_dict=from_dict)\n\n\n    # --------------------------------------------------------------------------\n    #\n    def _verify_mode(self):\n\n        mode   = self.mode\n        needed = _MODE_REQUIRES.get(mode)\n\n        if needed and not self.get(needed):\n\n            if mode in [TASK_FUNC, TASK_METH]:\n                label = \'TASK_FUNC\'\n            else:\n                label = mode.upper().replace(\'.\', \'_\')\n\n            raise ValueError("%s Task mode needs \'%s\'" % (label, needed))\n\n        if mode in [TASK_FUNC, TASK_METH] and self.get(\'named_env\'):\n            raise ValueError("TASK_FUNC and TASK_METH Task mode does not "\n                             "support \'named_env\'")\n\n\n    # --------------------------------------------------------------------------\n    #\n    def _verify(self):\n'),
+        ('task_description.py',
+         '        if not self.get(\'mode\'):\n            self[\'mode\'] = TASK_EXECUTABLE\n\n        if self.mode in [TASK_EXECUTABLE, TASK_SERVICE, AGENT_SERVICE]:\n            if not self.get(\'executable\'):\n                umode = self.mode.upper().replace(\'.\', \'_\')\n                raise ValueError("%s Task mode needs \'executable\'" % umode)\n\n        elif self.mode in [TASK_FUNC, TASK_METH]:\n            if not self.get(\'function\'):\n                raise ValueError("TASK_FUNC Task mode needs \'function\'")\n            if self.get(\'named_env\'):\n                raise ValueError("TASK_FUNC and TASK_METH Task mode does not "\n                                 "support \'named_env\'")\n\n        elif self.mode == TASK_PROC:\n            if not self.get(\'executable\'):\n                raise ValueError("TASK_PROC Task mode needs \'executable\'")\n\n        elif self.mode == TASK_EVAL:\n            if not self.get(\'code\'):\n                raise ValueError("TASK_EVAL Task mode needs \'code\'")\n\n        elif self.mode == TASK_EXEC:\n            if not self.get(\'code\'):\n                raise ValueError("TASK_EXEC Task mode needs \'code\'")\n\n        elif self.mode == TASK_SHELL:\n            if not self.get(\'command\'):\n                raise ValueError("TASK_SHELL Task mode needs \'command\'")\n\n        # backward compatibility for deprecated attributes\n        if self.cpu_processes:\n',
+         "        if not self.get('mode'):\n            self['mode'] = TASK_EXECUTABLE\n\n        self._verify_mode()\n\n        # backward compatibility for deprecated attributes\n        if self.cpu_processes:\n"),
+    ],
+    'C19-r2': [
+        ('task_description.py',
+         '    }\n\n\n    # --------------------------------------------------------------------------\n    #\n    def __init__(self, from_dict=None):\n',
+         "    }\n\n\n    # deprecated attributes: (old name, new name, reset value, value cast)\n    _deprecated = (\n        (CPU_PROCESSES   , RANKS         , 0   , None ),\n        (CPU_THREADS     , CORES_PER_RANK, 0   , None ),\n        (CPU_THREAD_TYPE , THREADING_TYPE, None, None ),\n        (GPU_PROCESSES   , GPUS_PER_RANK , 0   , float),\n        (GPU_PROCESS_TYPE, GPU_TYPE      , None, None ),\n        (LFS_PER_PROCESS , LFS_PER_RANK  , 0   , None ),\n        (MEM_PER_PROCESS , MEM_PER_RANK  , 0   , None ),\n        (SCHEDULER       , RAPTOR_ID     , ''  , None ),\n        (WORKER_FILE     , RAPTOR_FILE   , ''  , None ),\n        (WORKER_CLASS    , RAPTOR_CLASS  , ''  , None ),\n    )\n\n\n    # --------------------------------------------------------------------------\n    #\n    def __init__(self, from_dict=None):\n"),
+        ('task_description.py',
+         '                raise ValueError("TASK_SHELL Task mode needs \'command\'")\n\n        # backward compatibility for deprecated attributes\n        if self.cpu_processes:\n            self.ranks = self.cpu_processes\n            self.cpu_processes = 0\n\n        if self.cpu_threads:\n            self.cores_per_rank = self.cpu_threads\n            self.cpu_threads = 0\n\n        if self.cpu_thread_type:\n            self.threading_type = self.cpu_thread_type\n            self.cpu_thread_type = None\n\n        if self.gpu_processes:\n            self.gpus_per_rank = float(self.gpu_processes)\n            self.gpu_processes = 0\n\n        if self.gpu_process_type:\n            self.gpu_type = self.gpu_process_type\n            self.gpu_process_type = None\n\n        if self.lfs_per_process:\n            self.lfs_per_rank = self.lfs_per_process\n            self.lfs_per_process = 0\n\n        if self.mem_per_process:\n            self.mem_per_rank = self.mem_per_process\n            self.mem_per_process = 0\n\n        if self.scheduler:\n            self.raptor_id = self.scheduler\n            self.scheduler = \'\'\n\n        if self.worker_file:\n            self.raptor_file = self.worker_file\n            self.worker_file = \'\'\n\n        if self.worker_class:\n            self.raptor_class = self.worker_class\n            self.worker_class = \'\'\n\n        if self.use_mpi is None:\n            self.use_mpi = bool(self.ranks - 1)\n',
+         '                raise ValueError("TASK_SHELL Task mode needs \'command\'")\n\n        # backward compatibility for deprecated attributes\n        for old_name, new_name, reset, cast in self._deprecated:\n\n            value = self.get(old_name)\n            if not value:\n                continue\n\n            self[new_name] = cast(value) if cast else value\n            self[old_name] = reset\n\n        if self.use_mpi is None:\n            self.use_mpi = bool(self.ranks - 1)\n'),
+    ],
+    'C19-r3': [
+        ('utils/misc.py',
+         "    return ru.Url(rcfg.schemas[schema]['job_manager_endpoint'])\n\n\n# ------------------------------------------------------------------------------\n#\ndef convert_slots_to_new(slots, log=None):\n\n    from ..resource_config import Slot, RO\n\n    if not slots:\n        return slots\n",
+         "    return ru.Url(rcfg.schemas[schema]['job_manager_endpoint'])\n\n\n# ------------------------------------------------------------------------------\n#\ndef _to_ros(resources):\n\n    # convert the core or gpu entries of an old-style slot to a list of `RO`s\n\n    from ..resource_config import RO\n\n    if not resources:\n        return resources\n\n    first = resources[0]\n\n    if isinstance(first, RO):\n        return resources\n\n    if isinstance(first, int):\n        return [RO(index=i, occupation=1.0) for i in resources]\n\n    if isinstance(first, dict):\n        return [RO(index=ro['index'], occupation=ro['occupation'])\n                for ro in resources]\n\n    return [RO(index=i, occupation=o) for i,o in resources]\n\n\n# ------------------------------------------------------------------------------\n#\ndef convert_slots_to_new(slots, log=None):\n\n    from ..resource_config import Slot\n\n    if not slots:\n        return slots\n"),
+        ('utils/misc.py',
+         "            new_slots.append(slot)\n            continue\n\n        cores = slot['cores']\n        if cores:\n            if isinstance(cores[0], RO):\n                pass\n            elif isinstance(cores[0], int):\n                cores = [RO(index=i, occupation=1.0)\n                         for i in slot['cores']]\n            elif isinstance(cores[0], dict):\n                cores = list()\n                for ro in slot['cores']:\n                    i = ro['index']\n                    o = ro['occupation']\n                    cores.append(RO(index=i, occupation=o))\n            else:\n                cores = [RO(index=i, occupation=o)\n                         for i,o in slot['cores']]\n\n\n        gpus = slot['gpus']\n        if gpus:\n            if isinstance(gpus[0], RO):\n                pass\n            elif isinstance(gpus[0], int):\n                gpus  = [RO(index=i, occupation=1.0)\n                         for i in slot['gpus']]\n            elif isinstance(gpus[0], dict):\n                gpus = list()\n                for ro in slot['gpus']:\n                    i = ro['index']\n                    o = ro['occupation']\n                    gpus.append(RO(index=i, occupation=o))\n            else:\n                gpus  = [RO(index=i, occupation=o)\n                         for i,o in slot['gpus']]\n\n        new_slot = Slot(cores=cores,\n                        gpus=gpus,\n",
+         "            new_slots.append(slot)\n            continue\n\n        cores = _to_ros(slot['cores'])\n        gpus  = _to_ros(slot['gpus'])\n\n        new_slot = Slot(cores=cores,\n                        gpus=gpus,\n"),
+    ],
+    'C19-r4': [
+        ('pytask.py',
+         'from .utils import deserialize_obj, deserialize_bson\n\n\n# ------------------------------------------------------------------------------\n#\nclass PythonTask(object):\n',
+         "from .utils import deserialize_obj, deserialize_bson\n\n\n# keys expected in an encoded function call\n_TASK_KEYS = ('args', 'func', 'kwargs')\n\n\n# ------------------------------------------------------------------------------\n#\ndef _encode_call(func, args, kwargs):\n\n    task = {'func'  : serialize_obj(func),\n            'args'  : args,\n            'kwargs': kwargs}\n\n    return serialize_bson(task)\n\n\n# ------------------------------------------------------------------------------\n#\nclass PythonTask(object):\n"),
+        ('pytask.py',
+         "        if not callable(func):\n            raise ValueError('task function not callable')\n\n        task = {'func'  : serialize_obj(func),\n                'args'  : args,\n                'kwargs': kwargs or {}}\n\n        return serialize_bson(task)\n\n\n\n",
+         "        if not callable(func):\n            raise ValueError('task function not callable')\n\n        return _encode_call(func, args, kwargs or {})\n\n\n\n"),
+        ('pytask.py',
+         "            raise ValueError('bson object should be string')\n\n        pytask = deserialize_bson(bson_obj)\n        if any(key not in pytask for key in ('args', 'func', 'kwargs')):\n            raise TypeError('Encoded object does not have the expected schema.')\n        args   = list(pytask['args'])\n        kwargs = pytask['kwargs']\n        func   = deserialize_obj(pytask['func'])\n",
+         "            raise ValueError('bson object should be string')\n\n        pytask = deserialize_bson(bson_obj)\n        for key in _TASK_KEYS:\n            if key not in pytask:\n                raise TypeError('Encoded object does not have the expected '\n                                'schema.')\n        args   = list(pytask['args'])\n        kwargs = pytask['kwargs']\n        func   = deserialize_obj(pytask['func'])\n"),
+        ('pytask.py',
+         "        @functools.wraps(f)\n        def decor(*args, **kwargs):\n\n            task = {'func'  : serialize_obj(f),\n                    'args'  : args,\n                    'kwargs': kwargs}\n\n            return serialize_bson(task)\n\n        return decor\n        # ----------------------------------------------------------------------\n",
+         '        @functools.wraps(f)\n        def decor(*args, **kwargs):\n\n            return _encode_call(f, args, kwargs)\n\n        return decor\n        # ----------------------------------------------------------------------\n'),
+        ('resource_config.py',
+         "\n        if from_dict:\n\n            cores = from_dict.get('cores')\n            gpus  = from_dict.get('gpus')\n\n            if cores:\n                # this is much faster than `isinstance`\n                if cores[0].__class__.__name__ == 'dict':\n                    from_dict['cores'] =  [RO(d) for d in cores]\n\n                elif isinstance(cores[0], int):\n                    from_dict['cores'] =  [RO(index=i, occupation=BUSY)\n                                                 for i in cores]\n\n            if gpus:\n                if gpus[0].__class__.__name__ == 'dict':\n                    from_dict['gpus'] =  [RO(d) for d in gpus]\n\n                elif isinstance(gpus[0], int):\n                    from_dict['gpus'] =  [RO(index=i, occupation=BUSY)\n                                                for i in gpus]\n\n\n        super().__init__(from_dict, **kwargs)\n",
+         "\n        if from_dict:\n\n            for key in (self.CORES, self.GPUS):\n\n                resources = from_dict.get(key)\n                if not resources:\n                    continue\n\n                # this is much faster than `isinstance`\n                if resources[0].__class__.__name__ == 'dict':\n                    from_dict[key] = [RO(d) for d in resources]\n\n                elif isinstance(resources[0], int):\n                    from_dict[key] = [RO(index=i, occupation=BUSY)\n                                            for i in resources]\n\n\n        super().__init__(from_dict, **kwargs)\n"),
+    ],
+}
+
+SILENT += [dict(name='corpus %s' % k, edits=v) for k, v in sorted(_CORPUS.items())]
+
+MUTATIONS += [
+    dict(name='R19.2 corpus C19-r1, mode table asks command for TASK_EVAL', rules=('R19.2',), edits=_CORPUS['C19-r1'] + [
+        (_T, "                    TASK_EVAL      : CODE,", "                    TASK_EVAL      : COMMAND,")]),
+    dict(name='R19.2 corpus C19-r1, TASK_SHELL missing in the mode table', rules=('R19.2',), edits=_CORPUS['C19-r1'] + [
+        (_T, "                    TASK_EXEC      : CODE,\n                    TASK_SHELL     : COMMAND}", "                    TASK_EXEC      : CODE}")]),
+    dict(name='R19.1 corpus C19-r2, table row names the wrong replacement', rules=('R19.1',), edits=_CORPUS['C19-r2'] + [
+        (_T, "        (WORKER_CLASS    , RAPTOR_CLASS  , ''  , None ),", "        (WORKER_CLASS    , RAPTOR_FILE   , ''  , None ),")]),
+    dict(name='R19.1 corpus C19-r2, loop resets the replacement (F15 pattern)', rules=('R19.1',), edits=_CORPUS['C19-r2'] + [
+        (_T, "            self[old_name] = reset\n", "            self[new_name] = reset\n")]),
+    dict(name='R19.1 corpus C19-r2, reset value 1 for cpu_threads', rules=('R19.1',), edits=_CORPUS['C19-r2'] + [
+        (_T, "        (CPU_THREADS     , CORES_PER_RANK, 0   , None ),", "        (CPU_THREADS     , CORES_PER_RANK, 1   , None ),")]),
+    dict(name='R19.6 corpus C19-r2, use_mpi default in front of the table loop', rules=('R19.6',), edits=_CORPUS['C19-r2'] + [
+        (_T, "        if self.use_mpi is None:\n            self.use_mpi = bool(self.ranks - 1)\n\n", ""),
+        (_T, "        for old_name, new_name, reset, cast in self._deprecated:\n", "        if self.use_mpi is None:\n            self.use_mpi = bool(self.ranks - 1)\n\n        for old_name, new_name, reset, cast in self._deprecated:\n")]),
+    dict(name='R19.5 corpus C19-r3, helper builds ROs without occupation', rules=('R19.5',), edits=_CORPUS['C19-r3'] + [
+        (_M, "        return [RO(index=i, occupation=1.0) for i in resources]", "        return [RO(index=i) for i in resources]")]),
+    dict(name='R19.5 corpus C19-r3, gpus converted from the core list', rules=('R19.5',), edits=_CORPUS['C19-r3'] + [
+        (_M, "        gpus  = _to_ros(slot['gpus'])", "        gpus  = _to_ros(slot['cores'])")]),
+    dict(name='R19.4 corpus C19-r4, helper stores the function unserialized', rules=('R19.4',), edits=_CORPUS['C19-r4'] + [
+        (_Y, "    task = {'func'  : serialize_obj(func),", "    task = {'func'  : func,")]),
+    dict(name='R19.4 corpus C19-r4, __new__ passes kwargs=None to the helper', rules=('R19.4',), edits=_CORPUS['C19-r4'] + [
+        (_Y, "        return _encode_call(func, args, kwargs or {})", "        return _encode_call(func, args, kwargs)")]),
 ]
